@@ -146,6 +146,65 @@ def run_big_tree(rep, ctx, work, rng):
     shutil.rmtree(d, ignore_errors=True)
 
 
+def run_vanishing(rep, ctx, work, k, rng, files, d, expected, mname, argv):
+    """Files deleted while the walk is in progress (between listing and reading): the findings of every
+    other file are unchanged; a vanished file contributes all of its records or none."""
+    import subprocess, time
+    dd = d + '-vanish'
+    for it in range(3 if ctx.thorough else 1):
+        shutil.rmtree(dd, ignore_errors=True)
+        shutil.copytree(d, dd, symlinks=True)
+        victims = set(rng.sample(sorted(files), min(len(files), 10)))
+        t = rng.choice([1, 2, 4, 8])
+        env = dict(os.environ); env['NO_COLOR'] = '1'; env.pop('AST_GREP_VERIF_LOG', None)
+        env['AST_GREP_VERIF_DELAYS'] = f'produce={rng.choice([2000, 6000])};seed={rng.randint(1, 10**6)}'
+        pr = subprocess.Popen([common.SG] + argv() + ['-j', str(t), '.'], cwd=dd, env=env, stdout=subprocess.PIPE, stderr=subprocess.PIPE)
+        time.sleep(rng.choice([0.005, 0.02, 0.05]))
+        gone = 0
+        for v in sorted(victims):
+            try:
+                os.unlink(os.path.join(dd, v)); gone += 1
+            except OSError:
+                pass
+        try:
+            out, err = pr.communicate(timeout=300)
+        except subprocess.TimeoutExpired:
+            pr.kill(); rep['inconclusive'] += 1
+            continue
+        rep['evaluations'] += 1
+        count(rep, 'fault.vanishing-file', gone)
+        what = f'{mname} -j {t} with {gone} files deleted during the walk'
+        replay = {'monitor': 'py:c17', 'mode': mname, 'threads': t, 'fault': 'vanishing', 'victims': sorted(victims)}
+        try:
+            recs = parse_stream(out)
+        except Exception as ex:
+            add_violation(rep, 'C17/output-malformed/vanishing', f'{what}: {ex}; stderr {err[-200:]!r}', replay)
+            continue
+        by_file = {}
+        for x in recs:
+            f = x['file'][2:] if x['file'].startswith('./') else x['file']
+            by_file.setdefault(f, []).append(norm(x))
+        for p, v in expected.items():
+            got = sorted(by_file.get(p, []))
+            if p in victims:
+                if got and got != (v or []):
+                    add_violation(rep, 'C17/records/partial-vanished-file', f'{what}: {p} has {len(got)} of {len(v or [])} records', replay)
+                if got:
+                    count(rep, 'vanished_files_still_read')
+                else:
+                    count(rep, 'vanished_files_skipped')
+            elif got != (v or []):
+                add_violation(rep, 'C17/records/differs/vanishing', f'{what}: records of untouched file {p} differ ({len(got)} vs {len(v or [])}); stderr {err[-200:]!r}', replay)
+        if rc_bad(pr.returncode):
+            add_violation(rep, 'C17/abnormal-exit/vanishing', f'{what}: exit status {pr.returncode}; stderr {err[-300:]!r}', replay)
+    shutil.rmtree(dd, ignore_errors=True)
+
+
+def rc_bad(rc):
+    # killed by a signal or a panic exit status
+    return rc is None or rc < 0 or rc == 101
+
+
 def run_tree(rep, ctx, work, k, rng):
     n = rng.randint(50, 400) if ctx.thorough else rng.randint(40, 90)
     files = gen_tree(rng, n)
@@ -158,6 +217,7 @@ def run_tree(rep, ctx, work, k, rng):
         # expected: union of single-file runs
         expected = single_file_runs(argv, files, d)
         healthy_union = sorted(x for p, v in expected.items() if v for x in v)
+        run_vanishing(rep, ctx, work, k, rng, files, d, expected, mname, argv)
         # faults: a random subset of files is damaged
         fault_plans = [('none', {})]
         victims = rng.sample(sorted(files), min(len(files), 12))
